@@ -6,3 +6,7 @@ import Sio.Props.C04sched
 #print axioms Sio.C04sched.bystander_frame
 #print axioms Sio.C04sched.refused_never_notified_after
 #print axioms Sio.C04sched.refused_before_gate
+#print axioms Sio.C04sched.reason_is_gate_winner
+#print axioms Sio.C04sched.reason_follows_gate
+#print axioms Sio.C04sched.reason_names_cause_in_progress
+#print axioms Sio.C04sched.reason_is_terminating_cause
